@@ -1,6 +1,7 @@
 import Driver.SExp
 import UscxmlVerif.Spec.Legal
 import UscxmlVerif.Spec.Nesting
+import UscxmlVerif.Model.Tables
 namespace Driver
 open UscxmlVerif
 
@@ -23,5 +24,14 @@ def nest (line : String) : String :=
   match Spec.Nesting.check (line.splitOn " ") [] 0 with
   | none => "ok"
   | some i => s!"bad:{i}"
+
+/-- request: a chart s-expression (further tab separated fields ignored); response: the annotation dump -/
+def tables (line : String) : String :=
+  match line.splitOn "\t" with
+  | _ :: sx :: _ =>
+    match parseSExp sx >>= parseDoc with
+    | some (d, late) => Model.Tables.dump (flatten d late)
+    | none => "bad-chart"
+  | _ => "bad-op"
 
 end Driver
